@@ -224,6 +224,7 @@ func (a *asyncPipe) Close() {
 // ---- one scenario
 type runner struct {
 	rng  *rand.Rand
+	ws   *rand.Rand // white space choices (see pad)
 	log  *logT
 	out  *sink
 	in   *asyncPipe
@@ -243,7 +244,32 @@ const patience = 20 * time.Second
 
 func (r *runner) send(c, text string) {
 	r.log.add(Ev{Ev: "send", C: c})
-	r.in.WriteString(text + "\n")
+	r.in.WriteString(r.pad(text) + "\n")
+}
+
+// pad rewrites the white space of a command: the protocol allows arbitrary white space (blanks and tabs) between
+// tokens, before the first and after the last one.  One command in five is sent that way; the choices come from
+// a generator of their own so that the scenarios themselves are the same as without padding.
+func (r *runner) pad(text string) string {
+	if r.ws == nil || r.ws.Intn(5) != 0 {
+		return text
+	}
+	gap := func(min int) string {
+		n := min + r.ws.Intn(3)
+		b := make([]byte, n)
+		for i := range b {
+			b[i] = " \t"[r.ws.Intn(2)]
+		}
+		return string(b)
+	}
+	out := gap(0)
+	for i, f := range strings.Fields(text) {
+		if i > 0 {
+			out += gap(1)
+		}
+		out += f
+	}
+	return out + gap(0)
 }
 
 func (r *runner) waitFor(cond func() bool, what string) bool {
@@ -595,7 +621,7 @@ func main() {
 		done := make(chan struct{})
 		go func() { d.Run(); close(done) }()
 		ap := newAsyncPipe(pw)
-		r := &runner{rng: rng, log: lg, out: sk, in: ap, m: m, real: real, done: done, ucilines: ucilines}
+		r := &runner{rng: rng, ws: rand.New(rand.NewSource(sd ^ 0x5bd1e995)), log: lg, out: sk, in: ap, m: m, real: real, done: done, ucilines: ucilines}
 		if plist != nil {
 			r.replay(plist[t-1])
 		} else {
